@@ -241,6 +241,48 @@ def run():
                     ck.reject(f"C16:long-token-value:{kind}", f"{kind} token of length {L if tag == 'l' else 3} at offset ~{O} ({how}): "
                                                              f"program gives {end}, expected {pr[3]}",
                               {"kind": kind, "length": L, "offset": O, "reader": how, "observed": end, "expected": pr[3]})
+    # "of any length": the same five token kinds far beyond every buffer size (64 KiB, 1 MiB), judged by the value of the program,
+    # read in one piece, through a short-read reader, and typed as lines into the REPL (whose reader has a line buffer of its own)
+    def huge(kind, n):
+        if kind == "str":
+            return ['(s := "' + "a" * n + '").len'], str(n)
+        if kind == "raw":
+            return ["(s := `" + "b" * n + "`).len"], str(n)
+        if kind == "comment":
+            return ["x := 1 #" + "c" * n, "x + 1"], "2"
+        if kind == "ident":
+            name = "v" + "a" * (n - 1)
+            return [name + " := 5; " + name + " + 1"], "6"
+        return ["x := 1" + "\n" * n + "x + 1"], "2"       # blank: a run of empty lines (not for the REPL, where an empty line is an input of its own)
+    hreqs, hmeta = [], []
+    for L in [4095, 4096, 4097, 8192, 65535, 65536, 65537, 131072, 1048570, 1048576, 1048577, 1048700, 2500000]:
+        for kind in ("str", "raw", "comment", "ident", "blank"):
+            lines, want = huge(kind, L)
+            src = "\n".join(lines) + "\n"
+            for how, rq in (("single read", {"src": src}), ("reads of 4096 bytes", {"src": src, "chunks": [4096]}), ("reads of 65536,1 bytes", {"src": src, "chunks": [65536, 1]}),
+                            ("REPL", {"mode": "repl", "stdin": src})):
+                if how == "REPL" and kind == "blank":
+                    continue
+                rid = f"H{len(hreqs)}"
+                hreqs.append(dict(rq, id=rid, fuel=100000, deadline_ms=20000))
+                hmeta.append((kind, L, how, want, len(lines)))
+    hout = run_cases(hreqs, label="C16 huge tokens")
+    for rq, (kind, L, how, want, nlines) in zip(hreqs, hmeta):
+        o = hout[rq["id"]]
+        if how == "REPL":
+            text = o["events"][0][3:] if o["events"] else ""
+            body = text[text.index(">>> "):] if ">>> " in text else text
+            # one prompt per line typed plus the final one; the last value printed is the program's
+            vals = [x for x in body.split(">>> ")]
+            ok = o["end"] == "exit:0" and len(vals) == nlines + 2 and vals[-2].strip() == want
+            got = f"{o['end']} prompts={len(vals) - 1} last={vals[-2][:40] if len(vals) > 1 else ''!r}"
+        else:
+            ok = o["end"] == "val:" + want
+            got = o["end"][:80]
+        if not ok:
+            ck.reject(f"C16:huge-token:{kind}:{'repl' if how == 'REPL' else 'file'}", f"{kind} token of length {L} ({how}): program gives {got}, expected {want}",
+                      {"kind": kind, "length": L, "reader": how, "observed": got, "expected": want})
+    ck.cov["huge_token_programs"] = len(hreqs)
     ck.sample({"file": files[0][0], "variant": list(meta.values())[0][2], "tokens": len(rows[0]["a"])})
     ck.sample({"long": longs[7][0], "L": longs[7][1], "offset": longs[7][2]})
     ck.cov["evaluations"] = len(reqs)
@@ -249,7 +291,7 @@ def run():
     ck.cov["corpus_files_used"] = usable
     ck.cov["rule"] = (f"corpus = {len(files)} Pangaea files of the repository (tests/, example/, native/); per file: read schedules from {CHUNKS}, "
                       f"line breaks (RET and multi-line chain tokens) padded with blank/comment/comment-with-bars/trailing-comment/mixed/space layout of sizes {SIZES}; generated programs "
-                      "with string/raw-string/comment/identifier/blank-run tokens of length 1..10000 at offsets 0..2040; each variant's token stream + "
+                      "with string/raw-string/comment/identifier/blank-run tokens of length 1..10000 at offsets 0..2040, and of length 4095..2500000 judged by value (file, short reads, REPL lines); each variant's token stream + "
                       "tree is validated against the base by Trace_C16; non-trivial = validated variants")
     ck.assumptions = ["ast String() does not print source positions", "layout-carrying tokens are RET and MULTILINE_*_CHAIN"]
     return ck.finish()
